@@ -211,6 +211,21 @@ CHECKS = {
         design_ref="DESIGN.md 7/C19",
         note="'relaxed' = settings differ from the master's; CLI commands emulated by registry entries",
         technique="TLC validation of sync results and promotion events recorded from real code on fakes (TLA+ row specs)"),
+    "C20": dict(
+        category="model_checking",
+        text="RobustEnv.tla is the input space of the property as a TLA+ environment model (host registry incl. a ghost name, "
+             "cascade registrations with missing/self/ghost/garbage source, master / active list / switch request / maintenance / "
+             "recovery marks / health records absent, garbage, stale or dangling, mysync processes and mysqld up or down, every "
+             "SQL call failing, ZooKeeper gone); TLC enumerates all its behaviours of length 1 (quick) and 2 (thorough) and "
+             "simulates behaviours of length 8; every behaviour is replayed into the REAL daemon (three hosts, a mysync each, on "
+             "the fakes): each action is followed by two rounds of every loop of every live process, then the final state is "
+             "held for 68 rounds while goroutines and open connections are counted. Rows (recovered panics, leak counters) are "
+             "judged by TLC (RobustRows.tla); a panic in a goroutine spawned by mysync kills the driver and is attributed to the "
+             "behaviour; the loops of one process are additionally run concurrently under the Go race detector.",
+        design_ref="DESIGN.md 7/C20",
+        note="Go race detector as monitor for the race clause; leak = sustained growth over three windows; 11 genuine defects "
+             "repaired (fix: commits), see known_findings.jsonl",
+        technique="TLA+ environment model whose TLC-generated behaviours are replayed into the real daemon + TLC judgement of the replay rows + race detector"),
 }
 
 NOT_YET = "check not built yet in this round (work in progress, see DESIGN.md 9)"
